@@ -40,7 +40,7 @@ def _join(p):
 
 def run(ctx):
     violations = []
-    par = ctx.pick(6, 10)
+    par = ctx.pick(6, 8)
     maxcomps = ctx.pick(4, 5)
     binary = rt.build(ctx)
 
@@ -68,7 +68,7 @@ def run(ctx):
         tables.append(out)
         return lambda: rt.table(ctx, "ChannelTable", "ChannelTable.cfg", out,
                                 {"VERIF_PART": part, "VERIF_LO": lo, "VERIF_HI": hi, "VERIF_MAXCOMPS": mc},
-                                name="tab_%s_%d" % (part, lo), timeout=2400)
+                                name="tab_%s_%d" % (part, lo), timeout=ctx.pick(2400, 7200))
 
     n_all, n3, n2 = nof(maxcomps), nof(3), nof(2)
     tjobs.append(mk("pinned", 1, n2, 3))
@@ -77,10 +77,10 @@ def run(ctx):
     for lo, hi in _slices(n3, ctx.pick(200, 100)):
         tjobs.append(mk("resolve", lo, hi, 3))
     ljob = lambda: rt.laws(ctx, "Channel", "Channel_mc.cfg", env={"VERIF_MAXCOMPS": str(maxcomps)}, min_states=n_all,
-                           timeout=2400, workers=ctx.pick(2, 4))
+                           timeout=ctx.pick(2400, 7200), workers=ctx.pick(2, 4))
     vjobs = [(lambda i, p: lambda: rt.validate_obs(ctx, "TraceChannel", "TraceChannel.cfg", p,
                                                    os.path.join(obsdir, "verdict_%02d.json" % i),
-                                                   name="obs_%02d" % i, timeout=2400))(i, p)
+                                                   name="obs_%02d" % i, timeout=ctx.pick(2400, 7200)))(i, p)
              for i, p in enumerate(chunks)]
     res = rt.parallel([ljob] + vjobs + tjobs, par)
     mc = res[0]
